@@ -264,6 +264,100 @@ pub fn make(p: Params) -> ScenarioFn {
     })
 }
 
+/// "Banner" scenario: the server side writes on a stream the moment it is
+/// accepted (a target that greets first: SSH, SMTP, ...), while the client may
+/// still be suspended inside the write that carries the SYN.
+#[derive(Clone, Debug)]
+pub struct BannerParams {
+    pub openers: usize,
+    pub forward: bool,
+    pub scheme: &'static str,
+    pub scheme_name: &'static str,
+    pub write_menu: bool,
+    pub fresh: bool,
+}
+
+pub fn make_banner(p: BannerParams) -> ScenarioFn {
+    scenario(move || {
+        let p = p.clone();
+        async move {
+            let mut out = Outcome::default();
+            let c2s = PipeCfg::new("c2s").menus(false, p.write_menu).flush_menu(true);
+            let s2c = PipeCfg::new("s2c").flush_menu(true);
+            let mut pair = match linked_pair(c2s, s2c, p.scheme, p.scheme, None).await {
+                Ok(x) => x,
+                Err(e) => {
+                    out.viol("C01:start-failed", format!("{e}"));
+                    return out;
+                }
+            };
+            let viols: Arc<Mutex<Vec<(String, String)>>> = Arc::new(Mutex::new(vec![]));
+            let server = pair.server.clone();
+            let fw = p.forward;
+            let acceptor = tokio::spawn(async move {
+                while let Some(st) = pair.accepted.recv().await {
+                    let banner = Bytes::from(pat_vec(st.id() as u8, 1, 0, 20));
+                    if fw {
+                        let _ = st.send_data(banner);
+                    } else {
+                        let _ = within(server.write_data_frame(st.id(), banner)).await;
+                    }
+                }
+            });
+            if !p.fresh {
+                // pre-state: a session that already carries a stream (buffering off)
+                match within(pair.client.open_stream()).await {
+                    Some(Ok((st, _rx))) => {
+                        pair.client.disable_buffering();
+                        let _ = within(pair.client.write_data_frame(st.id(), Bytes::from_static(b"H"))).await;
+                    }
+                    _ => {
+                        out.viol("C01:open-failed", "pre-state open failed");
+                        return out;
+                    }
+                }
+            }
+            let mut hs = vec![];
+            for t in 0..p.openers {
+                let c = pair.client.clone();
+                let viols = viols.clone();
+                hs.push(tokio::spawn(async move {
+                    crate::ctl::hpoint("h.c01.banner.start").await;
+                    let Some(Ok((st, _rx))) = within(c.open_stream()).await else {
+                        vl(&viols, "C01:open-failed", format!("opener {t}"));
+                        return String::new();
+                    };
+                    c.disable_buffering();
+                    // the destination write flushes the SYN on a fresh session
+                    if let Some(Err(e)) = within(c.write_data_frame(st.id(), Bytes::from_static(b"D"))).await {
+                        vl(&viols, "C01:write-failed", format!("opener {t}: {e}"));
+                    }
+                    let f = Flow { stream: st.id() as usize - 1, up: false, path: Path::Forward, chunks: vec![20], read_buf: 64 };
+                    read_flow(st.clone(), f, st.id() as u8, 20, viols.clone()).await
+                }));
+            }
+            let mut obs = vec![];
+            for h in hs {
+                match tokio::time::timeout(Duration::from_secs(3 * 3600), h).await {
+                    Ok(Ok(s)) => obs.push(s),
+                    Ok(Err(e)) => vl(&viols, "panic:task", format!("{e}")),
+                    Err(_) => vl(&viols, "C01:lost", "banner reader never finished".into()),
+                }
+            }
+            acceptor.abort();
+            for (k, d) in viols.lock().unwrap().iter() {
+                out.viol(k.clone(), d.clone());
+            }
+            out.obs = obs.join(" | ");
+            out
+        }
+    })
+}
+
+pub fn banner_json(p: &BannerParams) -> serde_json::Value {
+    json!({"part": "banner", "openers": p.openers, "forward": p.forward, "scheme": p.scheme_name, "write_menu": p.write_menu, "fresh": p.fresh})
+}
+
 pub fn params_json(p: &Params) -> serde_json::Value {
     json!({"streams": p.streams, "scheme": p.scheme_name, "capacity": if p.capacity == usize::MAX { -1 } else { p.capacity as i64 },
         "read_menu": p.read_menu, "write_menu": p.write_menu,
@@ -355,7 +449,17 @@ pub fn all_params(tier: Tier) -> Vec<(Params, usize)> {
 }
 
 pub fn items(tier: Tier) -> Vec<DxItem> {
-    all_params(tier).into_iter().map(|(p, b)| DxItem::new(params_json(&p), make(p), b)).collect()
+    let mut v: Vec<DxItem> = all_params(tier).into_iter().map(|(p, b)| DxItem::new(params_json(&p), make(p), b)).collect();
+    let b = if tier.is_thorough() { 3 } else { 2 };
+    for (scheme, scheme_name) in [(STOP0, "stop0"), (DEFAULT, "default"), (TINY, "tiny")] {
+        for (openers, forward, write_menu, fresh, bound) in [(1, true, false, false, b), (1, false, false, false, b), (2, true, false, false, b - 1), (1, true, true, false, b - 1), (1, true, false, true, b - 1), (2, false, false, true, b - 1)] {
+            let p = BannerParams { openers, forward, scheme, scheme_name, write_menu, fresh };
+            let mut it = DxItem::new(banner_json(&p), make_banner(p), bound);
+            it.exec.long_yield = 5;
+            v.push(it);
+        }
+    }
+    v
 }
 
 /// Part C: the AsyncRead/AsyncWrite impls of `Stream` on a hand-built stream (IX sweep).
